@@ -82,7 +82,8 @@ func decodeFunctionNames(r *bytes.Reader) (wasm.NameMap, error) {
 		return nil, err
 	}
 
-	result := make(wasm.NameMap, functionCount)
+	// The declared count is only a capacity hint, and not trusted beyond what the remaining input could hold.
+	result := make(wasm.NameMap, 0, min(functionCount, uint32(r.Len())))
 	for i := uint32(0); i < functionCount; i++ {
 		functionIndex, err := decodeFunctionIndex(r, subsectionIDFunctionNames)
 		if err != nil {
@@ -93,7 +94,7 @@ func decodeFunctionNames(r *bytes.Reader) (wasm.NameMap, error) {
 		if err != nil {
 			return nil, err
 		}
-		result[i] = wasm.NameAssoc{Index: functionIndex, Name: name}
+		result = append(result, wasm.NameAssoc{Index: functionIndex, Name: name})
 	}
 	return result, nil
 }
@@ -104,7 +105,8 @@ func decodeLocalNames(r *bytes.Reader) (wasm.IndirectNameMap, error) {
 		return nil, err
 	}
 
-	result := make(wasm.IndirectNameMap, functionCount)
+	// The declared counts are only capacity hints, and not trusted beyond what the remaining input could hold.
+	result := make(wasm.IndirectNameMap, 0, min(functionCount, uint32(r.Len())))
 	for i := uint32(0); i < functionCount; i++ {
 		functionIndex, err := decodeFunctionIndex(r, subsectionIDLocalNames)
 		if err != nil {
@@ -116,7 +118,7 @@ func decodeLocalNames(r *bytes.Reader) (wasm.IndirectNameMap, error) {
 			return nil, fmt.Errorf("failed to read the local count for function[%d]: %w", functionIndex, err)
 		}
 
-		locals := make(wasm.NameMap, localCount)
+		locals := make(wasm.NameMap, 0, min(localCount, uint32(r.Len())))
 		for j := uint32(0); j < localCount; j++ {
 			localIndex, _, err := leb128.DecodeUint32(r)
 			if err != nil {
@@ -127,9 +129,9 @@ func decodeLocalNames(r *bytes.Reader) (wasm.IndirectNameMap, error) {
 			if err != nil {
 				return nil, err
 			}
-			locals[j] = wasm.NameAssoc{Index: localIndex, Name: name}
+			locals = append(locals, wasm.NameAssoc{Index: localIndex, Name: name})
 		}
-		result[i] = wasm.NameMapAssoc{Index: functionIndex, NameMap: locals}
+		result = append(result, wasm.NameMapAssoc{Index: functionIndex, NameMap: locals})
 	}
 	return result, nil
 }
